@@ -295,59 +295,9 @@ theorem maskLazy_independent (lit : Str) (ae : Bool) (hlit : Safe lit) {e1 e2 : 
         rw [hqs hne]
         refine ⟨lit ++ xxx ++ ['&'], q', by omega, by simp [a], by simp [b]⟩
 
-/-! ## 3b. the greedy matcher -/
+/-! ## 3b. the greedy matcher `(?s)<key>.*</key>` -/
 
 def NoNl (e : Str) : Prop := ∀ c ∈ e, notNl c = true
-
-theorem NoNl.append {a b : Str} (ha : NoNl a) (hb : NoNl b) : NoNl (a ++ b) := by
-  intro c hc
-  rcases List.mem_append.mp hc with h | h
-  · exact ha c h
-  · exact hb c h
-
-theorem NoNl.of_append_right {a b : Str} (h : NoNl (a ++ b)) : NoNl b :=
-  fun c hc => h c (List.mem_append.mpr (Or.inr hc))
-
-theorem noNl_open : NoNl litOpen := by unfold NoNl litOpen; decide
-theorem noNl_close : NoNl litClose := by unfold NoNl litClose; decide
-
-theorem takeWhile_noNl {a : Str} (ha : NoNl a) (b : Str) :
-    (a ++ b).takeWhile notNl = a ++ b.takeWhile notNl := by
-  induction a with
-  | nil => rfl
-  | cons c cs ih =>
-    have hc := ha c (by simp)
-    simp only [List.cons_append, List.takeWhile_cons, hc, if_true]
-    rw [ih (fun d hd => ha d (by simp [hd]))]
-
-theorem dropWhile_noNl {a : Str} (ha : NoNl a) (b : Str) :
-    (a ++ b).dropWhile notNl = b.dropWhile notNl := by
-  induction a with
-  | nil => rfl
-  | cons c cs ih =>
-    have hc := ha c (by simp)
-    simp only [List.cons_append, List.dropWhile_cons, hc, if_true]
-    exact ih (fun d hd => ha d (by simp [hd]))
-
-/-- Every text is newline free or splits at its first newline. -/
-theorem noNl_or_split (q : Str) : NoNl q ∨ ∃ q1 q2, q = q1 ++ '\n' :: q2 ∧ NoNl q1 := by
-  induction q with
-  | nil => left; intro c hc; simp at hc
-  | cons c cs ih =>
-    by_cases hc : c = '\n'
-    · right; exact ⟨[], cs, by simp [hc], by intro d hd; simp at hd⟩
-    · have hcn : notNl c = true := by simp [notNl, hc]
-      rcases ih with h | ⟨q1, q2, e, h⟩
-      · left; intro d hd
-        rcases List.mem_cons.mp hd with rfl | h'
-        · exact hcn
-        · exact h d h'
-      · right
-        refine ⟨c :: q1, q2, by simp [e], ?_⟩
-        intro d hd
-        rcases List.mem_cons.mp hd with rfl | h'
-        · exact hcn
-        · exact h d h'
 
 theorem lastClose_length : ∀ (l r : Str), lastClose l = some r → r.length < l.length := by
   intro l
@@ -368,8 +318,7 @@ theorem lastClose_length : ∀ (l r : Str), lastClose l = some r → r.length < 
       simp [litClose] at this
       simp; omega
 
-/-- The greedy `.*` backtracks to the LAST `</key>` of the line: what precedes an occurrence is
-irrelevant. -/
+/-- The greedy `.*` backtracks to the LAST `</key>`: what precedes an occurrence is irrelevant. -/
 theorem lastClose_append_close (x p1 : Str) :
     lastClose (x ++ (litClose ++ p1)) = some ((lastClose p1).getD p1) := by
   induction x with
@@ -386,42 +335,34 @@ theorem keyStep_decr : Decr keyStep := by
   | some body =>
     have hl := stripPrefix?_length hs
     simp only [hs] at h
-    cases hb : lastClose (body.takeWhile notNl) with
+    cases hb : lastClose body with
     | none => simp [hb] at h
     | some after =>
       simp only [hb, Option.some.injEq, Prod.mk.injEq] at h
       obtain ⟨_, rfl⟩ := h
       have h1 := lastClose_length _ _ hb
-      have h2 : (body.takeWhile notNl).length + (body.dropWhile notNl).length = body.length := by
-        rw [← List.length_append, List.takeWhile_append_dropWhile]
       simp [litOpen] at hl
-      simp only [List.length_append]
       omega
 
 /-- The step started exactly at the real `<key>`. -/
-theorem keyStep_at_key {k : Str} (hk : NoNl k) (post : Str) :
+theorem keyStep_at_key (k post : Str) :
     keyStep (litOpen ++ (k ++ (litClose ++ post))) =
-      some (litOpen ++ xxx ++ litClose,
-        (lastClose (post.takeWhile notNl)).getD (post.takeWhile notNl) ++ post.dropWhile notNl) := by
+      some (litOpen ++ xxx ++ litClose, (lastClose post).getD post) := by
   unfold keyStep
   rw [stripPrefix?_append]
   simp only
-  have e1 : (k ++ (litClose ++ post)).takeWhile notNl = k ++ (litClose ++ post.takeWhile notNl) := by
-    rw [takeWhile_noNl hk, takeWhile_noNl noNl_close]
-  have e2 : (k ++ (litClose ++ post)).dropWhile notNl = post.dropWhile notNl := by
-    rw [dropWhile_noNl hk, dropWhile_noNl noNl_close]
-  rw [e1, e2, lastClose_append_close]
+  rw [lastClose_append_close]
 
 /-- **Non-interference of the `<key>` mask**: whatever precedes and follows, the masked body does not
-depend on the bytes between `<key>` and `</key>`, as long as they contain no newline. -/
-theorem maskKey_independent {k1 k2 : Str} (h1 : NoNl k1) (h2 : NoNl k2) (pre post : Str) :
+depend on the bytes between `<key>` and `</key>` — any bytes, line breaks included (flag `s`). -/
+theorem maskKey_independent (k1 k2 pre post : Str) :
     maskKey (pre ++ (litOpen ++ (k1 ++ (litClose ++ post)))) =
       maskKey (pre ++ (litOpen ++ (k2 ++ (litClose ++ post)))) := by
   unfold maskKey
   apply replaceAll_independent keyStep_decr
   · simp [litOpen]
   · simp [litOpen]
-  · exact ⟨_, _, keyStep_at_key h1 post, keyStep_at_key h2 post⟩
+  · exact ⟨_, _, keyStep_at_key k1 post, keyStep_at_key k2 post⟩
   · intro p hp
     have hlen : litOpen.length ≤ (p ++ litOpen).length := by simp
     have key : ∀ k : Str, stripPrefix? litOpen (p ++ (litOpen ++ (k ++ (litClose ++ post)))) =
@@ -434,55 +375,12 @@ theorem maskKey_independent {k1 k2 : Str} (h1 : NoNl k1) (h2 : NoNl k2) (pre pos
     cases hb : stripPrefix? litOpen (p ++ litOpen) with
     | none => left; simp
     | some b =>
+      -- a `<key>` in front: its match ends behind the last `</key>` of the whole text, in both variants
+      right; left
       simp only [Option.map_some]
-      have hb' := stripPrefix?_eq_some.mp hb
-      have hdec : ∃ q s, b = q ++ s ∧ NoNl s ∧ q.length < p.length + 1 ∧ (q ≠ [] → s = litOpen) := by
-        rcases List.append_eq_append_iff.mp hb' with ⟨a', ha1, ha2⟩ | ⟨c', hc1, hc2⟩
-        · refine ⟨[], b, by simp, ?_, by simp, by simp⟩
-          have := noNl_open
-          rw [ha2] at this
-          exact this.of_append_right
-        · refine ⟨c', litOpen, hc2, noNl_open, ?_, fun _ => rfl⟩
-          rw [hc1]; simp; omega
-      obtain ⟨q, s, rfl, hs, hql, hqs⟩ := hdec
-      simp only [List.append_assoc]
-      rcases noNl_or_split q with hq | ⟨q1, q2, rfl, hq1⟩
-      · -- no newline before the secret: the match ends behind the last `</key>` of the secret's line
-        right; left
-        have tk : ∀ k : Str, NoNl k → (q ++ (s ++ (k ++ (litClose ++ post)))).takeWhile notNl =
-            (q ++ (s ++ k)) ++ (litClose ++ post.takeWhile notNl) := by
-          intro k hk
-          rw [takeWhile_noNl hq, takeWhile_noNl hs, takeWhile_noNl hk, takeWhile_noNl noNl_close]
-          simp
-        have dk : ∀ k : Str, NoNl k → (q ++ (s ++ (k ++ (litClose ++ post)))).dropWhile notNl =
-            post.dropWhile notNl := by
-          intro k hk
-          rw [dropWhile_noNl hq, dropWhile_noNl hs, dropWhile_noNl hk, dropWhile_noNl noNl_close]
-        refine ⟨litOpen ++ (xxx ++ litClose),
-          (lastClose (post.takeWhile notNl)).getD (post.takeWhile notNl) ++ post.dropWhile notNl, ?_, ?_⟩
-        · rw [tk k1 h1, dk k1 h1, lastClose_append_close]
-        · rw [tk k2 h2, dk k2 h2, lastClose_append_close]
-      · -- a newline in front: the line of this `<key>` ends before the secret
-        have tk : ∀ y : Str, (q1 ++ '\n' :: y).takeWhile notNl = q1 := by
-          intro y
-          rw [takeWhile_noNl hq1]
-          simp [notNl]
-        have dk : ∀ y : Str, (q1 ++ '\n' :: y).dropWhile notNl = '\n' :: y := by
-          intro y
-          rw [dropWhile_noNl hq1]
-          simp [notNl]
-        have hne : q1 ++ '\n' :: q2 ≠ [] := by simp
-        have hsl := hqs hne
-        rw [hsl]
-        simp only [List.append_assoc, List.cons_append, tk, dk]
-        cases hl : lastClose q1 with
-        | none => left; simp
-        | some after =>
-          right; right
-          have hal := lastClose_length _ _ hl
-          refine ⟨litOpen ++ (xxx ++ litClose), after ++ '\n' :: q2, ?_, by simp, by simp⟩
-          simp only [List.length_append, List.length_cons] at hql ⊢
-          omega
+      refine ⟨litOpen ++ xxx ++ litClose, (lastClose post).getD post, ?_, ?_⟩
+      · rw [← List.append_assoc b k1, lastClose_append_close]
+      · rw [← List.append_assoc b k2, lastClose_append_close]
 
 /-! ## 4. escaping -/
 
